@@ -527,11 +527,25 @@ class SlurmScriptAdapter(SchedulerScriptAdapter):
             return State.HWFAILURE
         elif slurm_state == "TO" or slurm_state == "TIMEOUT":
             return State.TIMEDOUT
-        elif (slurm_state == "ST" or
-              slurm_state == "F" or
-              slurm_state == "FAILED"):
+        elif slurm_state in ("CF", "CONFIGURING", "CONFIGURI+",
+                             "RQ", "REQUEUED",
+                             "RH", "REQUEUE_HOLD", "REQUEUE_H+",
+                             "RF", "REQUEUE_FED", "REQUEUE_F+",
+                             "RD", "RESV_DEL_HOLD", "RESV_DEL_+",
+                             "SE", "SPECIAL_EXIT", "SPECIAL_E+"):
+            # Alive, (re)queued or held by the scheduler.
+            return State.PENDING
+        elif slurm_state in ("S", "SUSPENDED", "ST", "STOPPED",
+                             "RS", "RESIZING", "SI", "SIGNALING"):
+            # Alive and holding its allocation.
+            return State.RUNNING
+        elif slurm_state == "SO" or slurm_state == "STAGE_OUT":
+            return State.FINISHING
+        elif slurm_state == "F" or slurm_state == "FAILED":
             return State.FAILED
-        elif slurm_state == "CA" or slurm_state == "CANCELLED":
+        elif (slurm_state == "CA" or slurm_state == "CANCELLED" or
+              slurm_state == "CANCELLED+"):
+            # sacct truncates "CANCELLED by <uid>" to "CANCELLED+".
             return State.CANCELLED
         else:
             LOGGER.debug("Found unhandled state code '%s' from slurm", slurm_state)
